@@ -316,56 +316,80 @@ def check(run, F, tier):
             else:
                 r3.violation(key, "%s uses %s, the specification's mask/shift is %s" % (key, sorted(consts), sorted(want)))
 
-    # PUBLISH flag setters: a method that rewrites fixed_header[0] in place must leave the packet-type nibble alone:
-    # `&= c` needs c's high nibble all ones, `|= c` needs it all zeros; set_dup uses exactly the DUP mask and its complement
+    # PUBLISH flag setters: every method of the packet that assigns fixed_header (in place or as a whole) is *evaluated* on all
+    # sixteen PUBLISH header bytes x all argument values: the packet-type nibble must survive, and set_dup must set / clear
+    # exactly the DUP bit of the specification - whatever the spelling (`|=`, `&= !`, a match producing a new array ...)
+    import explore as _ex
     for ver in ("v3_1_1", "v5_0"):
         base = "mqtt::packet::%s::publish::GenericPublish::<PacketIdType>::" % ver
+        adt = F.adts.get("mqtt::packet::%s::publish::GenericPublish" % ver)
+        fi = [i for i, x in enumerate(adt["variants"][0]["fields"]) if x["name"] == "fixed_header"] if adt else []
         nset = 0
         for pth, f in sorted(F.fns.items()):
-            if not pth.startswith(base):
+            if not pth.startswith(base) or f.get("kind") != "AssocFn" or f.get("names", {}).get("1") != "self":
                 continue
-            # locals holding a constant or its complement (`!0b0000_1000` is a separate MIR statement)
-            lconst = {}
-            for b in f["blocks"]:
-                for s_ in b["stmts"]:
-                    if s_["k"] == "assign" and not s_["lhs"]["p"]:
-                        rv = s_["rv"]
-                        if rv["k"] == "use" and "const" in rv["op"] and "bits" in rv["op"]["const"]:
-                            lconst[s_["lhs"]["l"]] = rv["op"]["const"]["bits"] & 0xFF
-                        elif rv["k"] == "un" and rv.get("op") == "Not" and "const" in rv["a"] and "bits" in rv["a"]["const"]:
-                            lconst[s_["lhs"]["l"]] = ~rv["a"]["const"]["bits"] & 0xFF
-
-            def cval(o):
-                if "const" in o and "bits" in o["const"]:
-                    return o["const"]["bits"]
-                pl = o.get("move") or o.get("copy")
-                if pl is not None and not pl["p"] and pl["l"] in lconst:
-                    return lconst[pl["l"]]
-                return None
-            for b in f["blocks"]:
-                for s_ in b["stmts"]:
-                    if s_["k"] != "assign" or s_["rv"]["k"] != "bin" or s_["rv"]["op"] not in ("BitAnd", "BitOr", "BitXor"):
-                        continue
-                    if not any(isinstance(el, dict) and el.get("n") == "fixed_header" for el in s_["lhs"]["p"]):
-                        continue
-                    cs = [c for c in (cval(s_["rv"]["a"]), cval(s_["rv"]["b"])) if c is not None]
-                    if not cs:
-                        continue
-                    nset += 1
-                    c0 = cs[0] & 0xFF
-                    op = s_["rv"]["op"]
-                    key = "%s::publish::%s/%s 0x%02x" % (ver, f["name"], op, c0)
-                    okm = (op == "BitAnd" and (c0 & 0xF0) == 0xF0) or (op in ("BitOr", "BitXor") and (c0 & 0xF0) == 0)
-                    if okm and f["name"] == "set_dup":
-                        dm = spec["publish_flags"]["dup"]["mask"]
-                        okm = (op == "BitOr" and c0 == dm) or (op == "BitAnd" and c0 == (~dm & 0xFF))
-                    if okm:
-                        r3.ok(key)
-                    else:
-                        r3.violation(key, "%s::publish::%s rewrites fixed_header[0] with `%s 0x%02x`: the packet-type nibble (0x3_) or a flag other than the intended one is changed"
-                                     % (ver, f["name"], {"BitAnd": "&=", "BitOr": "|=", "BitXor": "^="}[op], c0), site="%s:%s" % (f["file"], s_.get("line")))
+            writes = any(s_["k"] == "assign" and any(isinstance(el, dict) and el.get("n") == "fixed_header" for el in s_["lhs"]["p"])
+                         for b_ in f["blocks"] for s_ in b_["stmts"])
+            if not writes or not fi:
+                continue
+            nset += 1
+            byref = f["locals"][1].startswith("&")
+            doms = []
+            for i in range(2, f["argc"] + 1):
+                ty = f["locals"][i]
+                if ty == "bool":
+                    doms.append([("c", 0, "bool"), ("c", 1, "bool")])
+                elif ty in F.adts and F.adts[ty].get("kind") == "enum" and all(not v_["fields"] for v_ in F.adts[ty]["variants"]):
+                    doms.append([("agg", ty, v_["name"], ()) for v_ in F.adts[ty]["variants"]])
+                else:
+                    doms = None
+                    break
+            key0 = "%s::publish::%s" % (ver, f["name"])
+            if doms is None:
+                r3.violation(key0, "%s rewrites fixed_header but takes an argument that cannot be enumerated (%s): not evaluated" % (key0, f["locals"][2:f["argc"] + 1]))
+                continue
+            import itertools
+            dm = spec["publish_flags"]["dup"]["mask"]
+            bad = None
+            nev = 0
+            for h in range(0x30, 0x40):
+                for argv in itertools.product(*doms):
+                    def setup(ex, st, fr, h=h, argv=argv):
+                        root = ("self",) if byref else fr.root(1)
+                        st.heap[(root, (("f", fi[0], "fixed_header"),))] = ("arr", (("c", h, "u8"),))
+                        for j, av in enumerate(argv):
+                            st.heap[(fr.root(2 + j), ())] = av
+                    exq = _ex.Explorer(F)
+                    try:
+                        ps = [p_ for p_ in exq.run(pth, setup=setup) if p_.kind == "return"]
+                    except _ex.ExploreError as e:
+                        bad = "cannot be evaluated (%s)" % e
+                        break
+                    for p_ in ps:
+                        if byref:
+                            hv = p_.heap.get((("self",), (("f", fi[0], "fixed_header"),)))
+                        else:
+                            hv = p_.ret[3][fi[0]] if (p_.ret and p_.ret[0] == "agg" and len(p_.ret[3]) > fi[0]) else None
+                        out = hv[1][0] if (hv and hv[0] == "arr" and len(hv[1]) == 1) else None
+                        nev += 1
+                        if not (out and out[0] == "c"):
+                            bad = "header 0x%02x, args %s: resulting header byte is not decided" % (h, [a_[1] if a_[0] == "c" else a_[2] for a_ in argv])
+                        elif (out[1] & 0xF0) != 0x30:
+                            bad = "header 0x%02x, args %s: the packet-type nibble becomes 0x%x_" % (h, [a_[1] if a_[0] == "c" else a_[2] for a_ in argv], out[1] >> 4)
+                        elif f["name"] == "set_dup" and len(argv) == 1 and out[1] != ((h | dm) if argv[0][1] else (h & ~dm & 0xFF)):
+                            bad = "set_dup(%s) on header 0x%02x gives 0x%02x, the specification's DUP bit is 0x%02x" % (bool(argv[0][1]), h, out[1], dm)
+                    if bad:
+                        break
+                if bad:
+                    break
+            if bad:
+                r3.violation(key0, "%s: %s" % (key0, bad), site="%s:%s" % (f["file"], f["line"]))
+            elif nev == 0:
+                r3.violation(key0, "%s: no returning path evaluated" % key0)
+            else:
+                r3.ok(key0, {"evaluated": nev})
         if nset == 0:
-            r3.violation("%s::publish::setters" % ver, "no in-place fixed-header flag update found in %s PUBLISH (anchor lost)" % ver)
+            r3.violation("%s::publish::setters" % ver, "no method rewriting the fixed header found in %s PUBLISH (anchor lost)" % ver)
 
     # ------------------------------------------------------------------ R4
     r4 = run.rule("C03-R4", "field order on the wire (by field type) equals the specification's variable header / payload order", floor=29)
